@@ -96,10 +96,11 @@ func runC38(c *Ctx) {
 	}
 	for _, call := range sinks {
 		if se, ok := call.Fun.(*ast.SelectorExpr); ok && se.Sel.Name == "UnmarshalVT" {
-			okShort := rc.FactsAt(call).Cmp(func(e, tag ast.Expr, truth bool, fa *Fact) bool {
-				be, ok := e.(*ast.BinaryExpr)
-				return ok && !truth && be.Op == token.NEQ && strings.Contains(types_ExprString(be), "ms") && strings.Contains(types_ExprString(be), "n")
-			}) && rc.FactsAt(call).Has(func(fa *Fact) bool { return fa.Kind == FCallOK && len(rf) >= 2 && fa.Call == rf[1] })
+			// the count ReadFull returned equals the announced size (whatever the two are called)
+			okShort := rc.FactsAt(call).Equal(func(x, y ast.Expr) bool {
+				px, py := rc.enclosing(x).Prov(x), rc.enclosing(y).Prov(y)
+				return strings.Contains(px, "BigEndian.Uint32()") && strings.HasSuffix(py, "io.ReadFull()#0")
+			}) && rc.FactsAt(call).Has(func(fa *Fact) bool { return fa.Kind == FCallOK && len(rf) >= 2 && fa.Call == rf[len(rf)-1] })
 			c.Ob("framing", "receive#short-read-is-error", call.Pos(), okShort, "decoding happens only when exactly `size` bytes were read")
 		}
 	}
@@ -179,12 +180,31 @@ func runC38(c *Ctx) {
 		return true
 	})
 	c.Ob("prefix-agreement", "receive#prefix-buffer-is-LengthSize", rc.Decl.Pos(), okArr, "the reader reads a LengthSize-byte prefix")
+	// a short write: an error return where the count Write returned is known to differ from
+	// the length of the frame (the size the buffer was taken with)
 	okShortW := false
+	frameLen := ""
+	for _, gc := range sd.Calls(false, func(call *ast.CallExpr) bool {
+		k := sd.CallKey(call)
+		return strings.HasSuffix(k, "pool.Get") || strings.HasSuffix(k, ".Get") && strings.Contains(k, "buffer-pool")
+	}) {
+		if len(gc.Args) == 1 {
+			frameLen = sd.Prov(gc.Args[0])
+		}
+	}
 	for _, r := range sd.Returns() {
+		if isNilIdent(sd.Info, r.Results[0]) {
+			continue
+		}
 		if sd.FactsAt(r).Cmp(func(e, tag ast.Expr, truth bool, fa *Fact) bool {
-			be, ok := e.(*ast.BinaryExpr)
-			return ok && truth && be.Op == token.NEQ && strings.Contains(types_ExprString(be), "LengthSize")
-		}) && !isNilIdent(sd.Info, r.Results[0]) {
+			be, ok := ast.Unparen(e).(*ast.BinaryExpr)
+			if !ok || tag != nil || !(be.Op == token.NEQ && truth || be.Op == token.EQL && !truth) {
+				return false
+			}
+			px, py := sd.Prov(be.X), sd.Prov(be.Y)
+			isN := func(p string) bool { return strings.HasSuffix(p, ".Write()#0") }
+			return frameLen != "" && (isN(px) && py == frameLen || isN(py) && px == frameLen)
+		}) {
 			okShortW = true
 		}
 	}
